@@ -20,7 +20,7 @@ def cfg_fn(r):
     cfg['rr'] = r.choice(('1.09', '1.10', '1.12'))
     if r.random() < 0.6:
         cfg['udf'] = False
-    return cfg
+    return G.clamp_config(cfg)
 
 
 PROFILE = H.Profile('c08', nops=(3, 26), cfg_fn=cfg_fn,
